@@ -48,11 +48,11 @@ example : tableWorldOK Ex.tbl rVer rExp [(0, 0, 0)] = true := by decide
 
 /-- skipping restored ids is exactly filtering the task list of a fresh run: ids do not depend on
 what was restored -/
-theorem skip_is_filter (K : List Rec) (ts : List (Nat × Nat × Nat)) :
-    makeTasks K ts = (makeTasks [] ts).filter (fun t => !done K t) := makeTasks_filter K ts
+theorem skip_is_filter (fx : Bool) (K : List Rec) (ts : List (Nat × Nat × Nat)) :
+    makeTasks fx K ts = (makeTasks false [] ts).filter (fun t => !done fx K t) := makeTasks_filter fx K ts
 
 /-- an experiment that lists every triple once creates every task once -/
-theorem tasks_listed_once (ts : List (Nat × Nat × Nat)) (h : ts.Nodup) : (makeTasks [] ts).Nodup :=
+theorem tasks_listed_once (ts : List (Nat × Nat × Nat)) (h : ts.Nodup) : (makeTasks false [] ts).Nodup :=
   makeTasks_nodup' ts h
 
 /-! ### the resume protocol, repaired code (`Flags.fixed`) -/
@@ -64,56 +64,188 @@ theorem restore_eq_prefix (w : World) (hw : w.OK) (L : List Rec) (hL : ValidLog 
     ∃ j p K, cut w L k = logFile w (L.take j) ++ p ∧
       (p = [] ∨ ∃ x, L[j]? = some x ∧ p <+: w.c.enc x) ∧
       restore Flags.fixed w.c (some (cut w L k)) = some ⟨logFile w K, K⟩ ∧
-      K <+: L ∧ L.take j <+: K := restore_fixed w hw L hL k
+      K <+: L ∧ L.take j <+: K := restore_fixed Flags.fixed rfl w hw L hL k
 
 /-- [core] the whole property for one resumption, for every cut `k` and every order `app` in
-which the outputs of the remaining tasks arrive:
+which the outputs of the remaining tasks arrive (code with all four repairs, `Flags.fixed`; NO hypothesis on row-less
+evaluations any more — phase 2):
 `append_on_fresh_line` (the final file is the clean log of `K ++ appended`),
 the final read succeeds, the final log is again valid (`resume_closed`: so the theorem applies
 to any later interruption of the resumed run as well), it is a permutation of what an
 uninterrupted run writes (nothing lost, nothing twice), and no task that is run has its id among
 the restored records -/
-theorem resume_correct (w : World) (hw : w.OK) (hI : NonEmptyI w) (L : List Rec) (hL : ValidLog w L) (k : Nat) :
+theorem resume_correct (w : World) (hw : w.OK) (L : List Rec) (hL : ValidLog w L) (k : Nat) :
     ∃ j p K, cut w L k = logFile w (L.take j) ++ p ∧
       (p = [] ∨ ∃ x, L[j]? = some x ∧ p <+: w.c.enc x) ∧ K <+: L ∧ L.take j <+: K ∧
       restore Flags.fixed w.c (some (cut w L k)) = some ⟨logFile w K, K⟩ ∧
-      ∀ app, app.Perm ((makeTasks K w.triples).filterMap w.out) →
-        let o := finish w.c ⟨logFile w K, K⟩ (makeTasks K w.triples)
+      ∀ app, app.Perm ((makeTasks true K w.triples).filterMap w.out) →
+        let o := finish w.c ⟨logFile w K, K⟩ (makeTasks true K w.triples)
           (preamble Flags.fixed w.ver w.exp K) app
         o.file = logFile w (K ++ o.appended) ∧
         o.final = some (K ++ o.appended) ∧
         ValidLog w (K ++ o.appended) ∧
         (K ++ o.appended).Perm w.universe ∧
-        (∀ t ∈ o.tasks, ∀ r ∈ K, r.key ≠ t.key) := resume_correct' w hw hI L hL k
+        (∀ t ∈ o.tasks, ∀ r ∈ K, r.key ≠ t.key) := resume_correct' w hw L hL k
+
+/-- the same for the code as committed in /repo (torn-tail, preamble and gz repair; `Flags.committed`): PARTIAL, under the
+hypothesis `NonEmptyI` that `empty_rows_counterexample` shows to be necessary there -/
+theorem resume_correct_committed (w : World) (hw : w.OK) (hI : NonEmptyI w) (L : List Rec) (hL : ValidLog w L) (k : Nat) :
+    ∃ j p K, cut w L k = logFile w (L.take j) ++ p ∧
+      (p = [] ∨ ∃ x, L[j]? = some x ∧ p <+: w.c.enc x) ∧ K <+: L ∧ L.take j <+: K ∧
+      restore Flags.committed w.c (some (cut w L k)) = some ⟨logFile w K, K⟩ ∧
+      ∀ app, app.Perm ((makeTasks false K w.triples).filterMap w.out) →
+        let o := finish w.c ⟨logFile w K, K⟩ (makeTasks false K w.triples)
+          (preamble Flags.committed w.ver w.exp K) app
+        o.file = logFile w (K ++ o.appended) ∧
+        o.final = some (K ++ o.appended) ∧
+        ValidLog w (K ++ o.appended) ∧
+        (K ++ o.appended).Perm w.universe ∧
+        (∀ t ∈ o.tasks, ∀ r ∈ K, r.key ≠ t.key) := resume_correct_committed' w hw hI L hL k
 
 /-- [core] `resume_eq_full`, `no_duplicate_I`, `append_on_fresh_line` for the run in task order
 (what the driver executes): the resumed run returns a log `F` with the same records per id as
 the uninterrupted run -/
-theorem resume_eq_full (w : World) (hw : w.OK) (hI : NonEmptyI w) (L : List Rec) (hL : ValidLog w L) (k : Nat) :
+theorem resume_eq_full (w : World) (hw : w.OK) (L : List Rec) (hL : ValidLog w L) (k : Nat) :
     ∃ o F, resume Flags.fixed w (some (cut w L k)) = some o ∧ o.final = some F ∧
       o.file = logFile w F ∧ F = o.restored.K ++ o.appended ∧ o.restored.K <+: L ∧
       ValidLog w F ∧ F.Perm w.universe ∧ (∀ key, bodies F key = bodies w.universe key) ∧
-      (∀ t ∈ o.tasks, ∀ r ∈ o.restored.K, r.key ≠ t.key) := resume_eq' w hw hI L hL k
+      (∀ t ∈ o.tasks, ∀ r ∈ o.restored.K, r.key ≠ t.key) := resume_eq' w hw L hL k
+
+theorem resume_eq_full_committed (w : World) (hw : w.OK) (hI : NonEmptyI w) (L : List Rec) (hL : ValidLog w L) (k : Nat) :
+    ∃ o F, resume Flags.committed w (some (cut w L k)) = some o ∧ o.final = some F ∧
+      o.file = logFile w F ∧ F = o.restored.K ++ o.appended ∧ o.restored.K <+: L ∧
+      ValidLog w F ∧ F.Perm w.universe ∧ (∀ key, bodies F key = bodies w.universe key) ∧
+      (∀ t ∈ o.tasks, ∀ r ∈ o.restored.K, r.key ≠ t.key) := resume_eq_committed' w hw hI L hL k
 
 /-- [core] `no_reeval`, literally: whatever record decodes from a complete line of the cut file,
-no task of the resumed run carries its id -/
-theorem no_reeval (w : World) (hw : w.OK) (hI : NonEmptyI w) (L : List Rec) (hL : ValidLog w L) (k : Nat) :
+no task of the resumed run carries its id — now without `NonEmptyI` (fixes/C02-finished-triples.diff) -/
+theorem no_reeval (w : World) (hw : w.OK) (L : List Rec) (hL : ValidLog w L) (k : Nat) :
     ∃ R, restore Flags.fixed w.c (some (cut w L k)) = some R ∧
       ∀ l ∈ (splitNL (cut w L k)).1, ∀ r, w.c.dec l = some r →
-        ∀ t ∈ makeTasks R.K w.triples, t.key ≠ r.key := no_reeval' w hw hI L hL k
+        ∀ t ∈ makeTasks true R.K w.triples, t.key ≠ r.key := no_reeval' w hw L hL k
+
+theorem no_reeval_committed (w : World) (hw : w.OK) (hI : NonEmptyI w) (L : List Rec) (hL : ValidLog w L) (k : Nat) :
+    ∃ R, restore Flags.committed w.c (some (cut w L k)) = some R ∧
+      ∀ l ∈ (splitNL (cut w L k)).1, ∀ r, w.c.dec l = some r →
+        ∀ t ∈ makeTasks false R.K w.triples, t.key ≠ r.key := no_reeval_committed' w hw hI L hL k
+
+/-- [phase 2] `resume_from_any_sublog`: take the log `full` of an uninterrupted run (any arrival order), keep the version
+line first and ANY sub-multiset of the other records in ANY order (`Subperm`: not only a byte prefix — what a killed
+multi-process run leaves; the experiment line may even be missing), cut that file at ANY byte `k`: it is a valid log, the
+resumed run completes and returns a log with exactly the records of `full`, hence the uninterrupted Result, and re-runs no
+restored id.  (C07's `punched_log_resume` is the matching statement about the decoded tables: kept records + appended
+records a permutation of the full run's ⇒ `fromFile` gives `specResult`.) -/
+theorem resume_from_any_sublog (w : World) (hw : w.OK) (full : List Rec) (hfull : full.Perm w.universe)
+    (rest : List Rec) (hsub : (w.ver :: rest).Subperm full) (k : Nat) :
+    ValidLog w (w.ver :: rest) ∧
+    ∃ o F, resume Flags.fixed w (some (cut w (w.ver :: rest) k)) = some o ∧ o.final = some F ∧
+      o.restored.K <+: (w.ver :: rest) ∧ F.Perm full ∧ (∀ key, bodies F key = bodies full key) ∧
+      (∀ t ∈ o.tasks, ∀ r ∈ o.restored.K, r.key ≠ t.key) := resume_from_any_sublog' w hw full hfull rest hsub k
+
+/-- [phase 2] `resume_chain`: any number of interruptions in a row (`Chain`: killed after `k₁` bytes, resumed, that run
+killed after `k₂` bytes of what it would have written, resumed, …).  For every list of cut offsets a chain exists (no
+resumption ever raises), every log along it is valid, and after at least one resumption the final log has exactly the
+records of the uninterrupted run -/
+theorem resume_chain (w : World) (hw : w.OK) (L : List Rec) (hL : ValidLog w L) :
+    (∀ ks, ∃ F, Chain Flags.fixed w ks L F) ∧
+    (∀ ks F, Chain Flags.fixed w ks L F → ValidLog w F ∧
+      (ks ≠ [] → F.Perm w.universe ∧ ∀ key, bodies F key = bodies w.universe key)) :=
+  resume_chain_gen' Flags.fixed rfl rfl w hw (Or.inl rfl) L hL
+
+theorem resume_chain_committed (w : World) (hw : w.OK) (hI : NonEmptyI w) (L : List Rec) (hL : ValidLog w L) :
+    (∀ ks, ∃ F, Chain Flags.committed w ks L F) ∧
+    (∀ ks F, Chain Flags.committed w ks L F → ValidLog w F ∧
+      (ks ≠ [] → F.Perm w.universe ∧ ∀ key, bodies F key = bodies w.universe key)) :=
+  resume_chain_gen' Flags.committed rfl rfl w hw (Or.inr hI) L hL
 
 /-- the Result is a function of the records per id; permuted duplicate-free logs agree on it -/
 theorem result_eq_of_perm {F U : List Rec} (hp : F.Perm U) (hU : (U.map (·.key)).Nodup) (key : Key) :
     bodies F key = bodies U key := bodies_eq_of_perm' hp hU key
 
-/-- the uninterrupted run (no result file), under either version of the code, writes a valid
-log that is a permutation of `w.universe` -/
-theorem uninterrupted_run (fl : Flags) (w : World) (hw : w.OK) (hI : NonEmptyI w)
-    (app : List Rec) (happ : app.Perm ((makeTasks [] w.triples).filterMap w.out)) :
+/-- the uninterrupted run (no result file), under every version of the code, writes a valid
+log that is a permutation of `w.universe` (no hypothesis on row-less evaluations) -/
+theorem uninterrupted_run (fl : Flags) (w : World) (hw : w.OK)
+    (app : List Rec) (happ : app.Perm ((makeTasks fl.finishedFix [] w.triples).filterMap w.out)) :
     restore fl w.c none = some ⟨[], []⟩ ∧
-    let o := finish w.c ⟨[], []⟩ (makeTasks [] w.triples) (preamble fl w.ver w.exp []) app
+    let o := finish w.c ⟨[], []⟩ (makeTasks fl.finishedFix [] w.triples) (preamble fl w.ver w.exp []) app
     o.file = logFile w o.appended ∧ o.final = some o.appended ∧ ValidLog w o.appended ∧
-    o.appended.Perm w.universe := fresh_run' fl w hw hI app happ
+    o.appended.Perm w.universe := fresh_run' fl w hw app happ
+
+/-! ### `.gz` result files at byte level (phase 2) -/
+
+/-- a `k`-byte prefix of a `.gz` file is some complete members followed by a strictly torn one (or nothing) -/
+theorem gz_cut_members (ms : List Member) (k : Nat) :
+    ∃ j q, (flatM ms).take k = flatM (ms.take j) ++ q ∧
+      (q = [] ∨ ∃ m, ms[j]? = some m ∧ q <+: m.bytes ∧ q ≠ m.bytes) := take_flatM ms k
+
+/-- `gz_member_scan_spec`: under the stated zlib laws the member scan of `_drop_torn_tail` stops exactly after the last
+complete member, so `f.truncate(good)` leaves the complete members and nothing else -/
+theorem gz_member_scan_spec (scan : MScan) (all : List Member) (hl : MLaws scan all) (ms : List Member)
+    (hms : ∀ m ∈ ms, m ∈ all) (q : Bytes) (hq : q = [] ∨ ∃ m ∈ all, q <+: m.bytes ∧ q ≠ m.bytes) :
+    memberScan scan (flatM ms ++ q) = (flatM ms).length ∧ gzRepair scan (flatM ms ++ q) = flatM ms :=
+  memberScan_spec' scan all hl ms hms q hq
+
+/-- reading complete members gives their payloads; a file that ends in a torn member can not be read -/
+theorem gz_read_spec (scan : MScan) (all : List Member) (hl : MLaws scan all) (ms : List Member)
+    (hms : ∀ m ∈ ms, m ∈ all) : gunzip scan (flatM ms) = some (payloadsM ms) := gunzip_spec' scan all hl ms hms
+
+theorem gz_torn_unreadable (fl : Flags) (hg : fl.repairGz = false) (scan : MScan) (ms : List Member)
+    (hlaws : MLaws scan ms) (k : Nat) (j : Nat) (q : Bytes) (h1 : (flatM ms).take k = flatM (ms.take j) ++ q)
+    (hq : ∃ m, ms[j]? = some m ∧ q <+: m.bytes ∧ q ≠ m.bytes) (hqne : q ≠ []) :
+    gzText fl scan ((flatM ms).take k) = none := gz_torn_unreadable' fl hg scan ms hlaws k j q h1 hq hqne
+
+/-- the driver's concrete scanner (table of the members of the real files) satisfies the laws when the run-time check
+`memberTableOK` holds (no member empty, none a prefix of another) -/
+theorem table_scan_laws (tbl : List Member) (h : memberTableOK tbl = true) : MLaws (tableScan tbl) tbl :=
+  tableScan_laws tbl h
+
+/-- [core, phase 2] `resume_correct` for `.gz` files, at byte level: the file holds the valid log `L` one member per
+record (`PayloadLog`), is cut at ANY compressed byte `k`; the repair keeps exactly the complete members `ms.take j`,
+reading gives the clean text of a prefix `L.take i` of the log, restoring it succeeds, and whatever members `msNew` the
+resumed run appends for its records (any arrival order), the final file decompresses to the final file of the text-level
+protocol, whose log is valid, a permutation of the uninterrupted one, with no restored id re-run -/
+theorem gz_resume_correct (w : World) (hw : w.OK) (L : List Rec) (hL : ValidLog w L) (scan : MScan)
+    (ms : List Member) (hlaws : MLaws scan ms) (hpl : PayloadLog w.c ms L) (k : Nat) :
+    ∃ j i, memberScan scan ((flatM ms).take k) = (flatM (ms.take j)).length ∧
+      gzRepair scan ((flatM ms).take k) = flatM (ms.take j) ∧
+      gzText Flags.fixed scan ((flatM ms).take k) = some (logFile w (L.take i)) ∧
+      restore Flags.fixed w.c (some (logFile w (L.take i))) = some ⟨logFile w (L.take i), L.take i⟩ ∧
+      ∀ app, app.Perm ((makeTasks true (L.take i) w.triples).filterMap w.out) →
+        ∀ msNew, PayloadLog w.c msNew (preamble Flags.fixed w.ver w.exp (L.take i) ++ app) →
+          MLaws scan (ms.take j ++ msNew) →
+          let o := finish w.c ⟨logFile w (L.take i), L.take i⟩ (makeTasks true (L.take i) w.triples)
+            (preamble Flags.fixed w.ver w.exp (L.take i)) app
+          gunzip scan (flatM (ms.take j) ++ flatM msNew) = some o.file ∧
+          o.final = some (L.take i ++ o.appended) ∧
+          ValidLog w (L.take i ++ o.appended) ∧
+          (L.take i ++ o.appended).Perm w.universe ∧
+          (∀ t ∈ o.tasks, ∀ r ∈ L.take i, r.key ≠ t.key) :=
+  gz_resume_correct_gen' Flags.fixed rfl rfl rfl w hw (Or.inl rfl) L hL scan ms hlaws hpl k
+
+/-! ### which files are gzip files (phase 2; translator obligation) -/
+
+/-- the three predicates extracted from coba/pipes/sinks.py, coba/pipes/sources.py and coba/experiments/core.py on this
+run are the same expression … -/
+theorem gz_preds_equal : Coba.Generated.C02Gz.sinkPred = Coba.Generated.C02Gz.sourcePred ∧
+    Coba.Generated.C02Gz.sourcePred = Coba.Generated.C02Gz.repairPred := gz_preds_equal'
+
+/-- … hence sink, source and torn-tail repair agree on EVERY file name whether it is a gzip file -/
+theorem gz_decision_consistent (name : Bytes) :
+    Coba.Generated.C02Gz.sinkPred.eval name = Coba.Generated.C02Gz.sourcePred.eval name ∧
+    Coba.Generated.C02Gz.sourcePred.eval name = Coba.Generated.C02Gz.repairPred.eval name :=
+  gz_decision_consistent' name
+
+/-- the same by evaluation on the table of generated name shapes -/
+theorem gz_decision_table :
+    nameShapes.map Coba.Generated.C02Gz.sourcePred.eval = nameShapes.map Coba.Generated.C02Gz.sinkPred.eval ∧
+    nameShapes.map Coba.Generated.C02Gz.repairPred.eval = nameShapes.map Coba.Generated.C02Gz.sinkPred.eval :=
+  gz_decision_table'
+
+/-- what `".gz" in name` and `name.endswith(".gz")` give on those shapes (they differ on r.gz.bak, r.gzip, a.gz.d/r.log) -/
+theorem gz_contains_table :
+    nameShapes.map (GzPred.contains [46, 103, 122]).eval = [false, true, true, true, true, false, true, false, true] ∧
+    nameShapes.map (GzPred.endsWith [46, 103, 122]).eval = [false, true, false, false, false, false, true, false, true] :=
+  gz_contains_table'
 
 /-- `.gz`: with the incomplete trailing member dropped (zlib trusted for "a truncated member
 does not decompress completely") the file is a cut on a record boundary, so `resume_correct`
@@ -132,9 +264,9 @@ FALSE: see `torn_tail_counterexample`, `glued_record_counterexample`,
 /-- the pinned code is correct when the cut falls on a record boundary (`logFile w K`, no tail)
 and the experiment line was already written (`w.exp ∈ K`) -/
 theorem resume_cur_partial (w : World) (hw : w.OK) (hI : NonEmptyI w) (K : List Rec) (hK : ValidLog w K)
-    (hexp : w.exp ∈ K) (app : List Rec) (happ : app.Perm ((makeTasks K w.triples).filterMap w.out)) :
+    (hexp : w.exp ∈ K) (app : List Rec) (happ : app.Perm ((makeTasks false K w.triples).filterMap w.out)) :
     restore Flags.cur w.c (some (logFile w K)) = some ⟨logFile w K, K⟩ ∧
-    let o := finish w.c ⟨logFile w K, K⟩ (makeTasks K w.triples) (preamble Flags.cur w.ver w.exp K) app
+    let o := finish w.c ⟨logFile w K, K⟩ (makeTasks false K w.triples) (preamble Flags.cur w.ver w.exp K) app
     o.file = logFile w (K ++ o.appended) ∧ o.final = some (K ++ o.appended) ∧
     ValidLog w (K ++ o.appended) ∧ (K ++ o.appended).Perm w.universe ∧
     (∀ t ∈ o.tasks, ∀ r ∈ K, r.key ≠ t.key) := resume_cur_partial' w hw hI K hK hexp app happ
@@ -189,18 +321,23 @@ theorem counterexamples_repaired :
     ((resume Flags.fixed Ex.w (some (Ex.full.take 4))).map (fun o => o.final.map (fun F => decide (F.Perm Ex.log)))) = some (some true) := by
   decide
 
-/-! ### the hypothesis `NonEmptyI` is necessary (recorded finding C02-F6, not repaired) -/
+/-! ### the hypothesis `NonEmptyI` is necessary for the committed code (finding C02-F6; repair proposed in phase 2) -/
 
 /-
-theorem resume_correct_full : `resume_correct` without `hI : NonEmptyI w`.
-FALSE for both versions of the code: MakeTasks learns the finished triples from the rows of the
-interactions table, and an `I` record without rows contributes none.
+theorem resume_correct_committed_full : `resume_correct_committed` without `hI : NonEmptyI w`.
+FALSE: MakeTasks learns the finished triples from the rows of the interactions table, and an `I` record without rows
+contributes none.  With fixes/C02-finished-triples.diff (`Flags.fixed`) the hypothesis is gone: `resume_correct`.
 -/
 
 /-- C02-F6: an evaluation that yields no rows is recorded as `["I",[0,0,0],{"_packed":{}}]`;
 resuming from the COMPLETE log evaluates that triple again and records it a second time -/
 theorem empty_rows_counterexample :
-    (resume Flags.fixed Ex.w0 (some Ex.full0)).map (fun o => (o.tasks, o.final.map keysNodup))
+    (resume Flags.committed Ex.w0 (some Ex.full0)).map (fun o => (o.tasks, o.final.map keysNodup))
       = some ([Task.eval 0 0 0], some false) := by decide
+
+/-- the same input with the finished-triples repair: nothing is run, nothing is recorded twice -/
+theorem empty_rows_repaired :
+    (resume Flags.fixed Ex.w0 (some Ex.full0)).map (fun o => (o.tasks, o.final.map keysNodup))
+      = some ([], some true) := by decide
 
 end Coba.C02
